@@ -1903,6 +1903,88 @@ fn list_forms(cx: &mut Cx)
 	cx.report.hit_n("list-form projects", n as u64 + 7);
 }
 
+// ------------------------------------------------------------------------------------------------
+// a use that mixes an imported name with a name that is NOT visible in the using file (it exists in the includer, in a sibling, in
+// both or nowhere; never imported): must be diagnosed at the using statement, whichever side of whichever operator the invisible
+// name stands on and whether the import is still pending or valued. Replay through `proj …` judges the model comparison only.
+
+fn invisible_name_project(rng: &mut Rng) -> (crate::asm::Project, u32, String)
+{
+	let ext = *rng.pick(&["ext", "base", "late"]);
+	let k = *rng.pick(&["k", "step", "size"]);
+	let b = 0x100 + rng.below(0x1000) as i64;
+	let kv = 1 + rng.below(30) as i64;
+	let pending = rng.chance(2, 3);
+	let wher = rng.below(5);   // 0: includer constant, 1: includer label, 2: sibling only, 3: includer and sibling, 4: nowhere
+	let op = *rng.pick(&["+", "-", "*", "/", "%", "&", "|", "^", "<<", ">>"]);
+	let left = rng.chance(1, 2);   // the imported name on the left
+	let (a, c) = if left {(ext, k)} else {(k, ext)};
+	let stmt = match rng.below(6)
+	{
+		0 => format!(".du32 {a} {op} {c};"),
+		1 => format!(".du16 ({a} {op} {c}) & 0xFFFF;"),
+		2 => format!("MOVS R0, ({a} {op} {c}) & 0xFF;"),
+		3 => format!(".du32 ({a} + 1) {op} ({c} + 1);"),
+		4 => format!(".du8 (-{a} {op} !{c}) & 0xFF;"),
+		_ => format!("LDR R1, [R2 + (({a} {op} {c}) & 0x7C)];"),
+	};
+	let lead = rng.below(3) as usize;
+	let mut inner = format!(".import {ext};\n");
+	for j in 0..lead {inner.push_str(&format!(".du8 {j};\n"));}
+	let line = 2 + lead as u32;
+	inner.push_str(&stmt);
+	inner.push_str("\n.du8 0x77;\n");
+	let mut outer = format!(".addr 0x{BASE:08X};\n");
+	if pending {outer.push_str(&format!(".global {ext};\n"));} else {outer.push_str(&format!(".const {ext}, {b};\n.global {ext};\n"));}
+	match wher {0 | 3 => outer.push_str(&format!(".const {k}, {kv};\n")), 1 => outer.push_str(&format!("{k}:\n")), _ => ()}
+	let mut files = vec![("main.asm".to_owned(), Vec::new())];
+	if wher == 2 || wher == 3 {outer.push_str(".include \"sib.asm\";\n"); files.push(("sib.asm".to_owned(), format!(".const {k}, {};\n.du8 {k} & 0xFF;\n", kv + 40).into_bytes()));}
+	outer.push_str(".include \"inner.asm\";\n");
+	if wher == 0 && rng.chance(1, 3) {outer.push_str(&format!(".du8 {k};\n"));}
+	if pending {outer.push_str(&format!(".const {ext}, {b};\n"));}
+	files[0].1 = outer.into_bytes();
+	files.push(("inner.asm".to_owned(), inner.into_bytes()));
+	let shape = format!("import {}, `{k}` {}, imported name on the {} of `{op}`", if pending {"pending"} else {"valued"}, ["a constant of the includer", "a label of the includer", "in a sibling only", "in the includer and a sibling", "nowhere"][wher as usize],
+		if left {"left"} else {"right"});
+	(crate::asm::Project{files}, line, shape)
+}
+
+fn check_invisible(cx: &mut Cx, p: &crate::asm::Project, line: u32, shape: &str)
+{
+	let dir = cx.work.join("invisible");
+	p.write(&dir);
+	let input = p.to_input();
+	match crate::asm::run_real(&dir)
+	{
+		Err(e) => cx.report.oracle_fail(input.clone(), format!("panic: {e}")),
+		Ok(o) =>
+		{
+			cx.report.case(Some(&format!("{shape} {}", o.errors.first().map(|e| e.3.clone()).unwrap_or_default())));
+			let blamed = o.errors.iter().any(|(f, l, _, _)| f.ends_with("/inner.asm") && *l == line);
+			if (o.finalize && o.close_err.is_none()) || !blamed
+			{
+				cx.report.oracle_fail(input.clone(), format!("{shape}: the use at inner.asm:{line} names a constant that is not visible in that file and must be diagnosed; finalize {}, diagnostics {:?}, image {:?}",
+					o.finalize, o.errors.iter().map(|(f, l, c, k)| format!("{}:{l}:{c}:{k}", f.rsplit('/').next().unwrap_or(""))).collect::<Vec<_>>(), o.image.values().map(|b| format!("{b:02x}")).collect::<String>()));
+			}
+		},
+	}
+	crate::asm::check_asm_model(cx, p, &dir);
+}
+
+fn invisible_names(cx: &mut Cx)
+{
+	let n = if cx.thorough() {30_000} else {2_500};
+	for _ in 0..n
+	{
+		let mut rng = cx.rng.fork();
+		let (p, line, shape) = invisible_name_project(&mut rng);
+		let key: Vec<&str> = shape.split(", imported").next().unwrap_or("").split('`').collect();
+		cx.report.hit(&format!("invisible second name: {}the name{}", key.first().unwrap_or(&""), key.get(2).unwrap_or(&"")));
+		check_invisible(cx, &p, line, &shape);
+	}
+	cx.report.hit_n("projects mixing an import with an invisible name", n as u64);
+}
+
 pub fn run(_id: &str, cx: &mut Cx)
 {
 	cx.report.rule = "projects = include trees (depth <= 4, fan-out <= 3, <= 9 files) of .const/label/.global/.import/.export/.include statements and uses, a use being .du32 <name> or an instruction whose operand goes through one of the evaluator arms (SVC, UDF.N, UDF.W, RSBS / MOVS, CMP / B, BKPT / LDRB / LDR literal, LDR reg+offset) with every name confined to a value class encodable in its spellings, written to disk and assembled by the real Context; \
@@ -1964,6 +2046,7 @@ non-trivial = at least one used value or one diagnostic observed; distinct = dis
 	histories(cx);
 	multi_name(cx);
 	list_forms(cx);
+	invisible_names(cx);
 	let sc = scenarios();
 	cx.report.hit_n("scenario projects", sc.len() as u64);
 	for p in &sc {assert!(p.is_tree(), "scenario is not a tree: {}", p.encode());}
